@@ -7,6 +7,12 @@ package cas
 
 // Every call suspends the clock for exactly its own duration (C11):
 // suspended(s) is the per-call ledger of Suspend minus Resume calls.
+//@ stub (pkg/cas.DirectoryFetcher).GetDirectory
+//@   pure -- the base fetcher is a different object: what it does to clocks is balanced and not part of this call's ledger
+//@ stub (pkg/cas.DirectoryFetcher).GetTreeRootDirectory
+//@   pure
+//@ stub (pkg/cas.DirectoryFetcher).GetTreeChildDirectory
+//@   pure
 //@ func (*suspendingDirectoryFetcher).GetDirectory
 //@   props C11
 //@   ensures balanced: suspended(df.suspendable) == 0
